@@ -729,6 +729,17 @@ Proof.
   unfold deliver. cbn -[mem]. destruct (mem (g_owner g) (q_dead s)); cbn; rewrite ?app_nil_r; reflexivity.
 Qed.
 
+Theorem start_stop_sequential h i k g :
+  let s := seq_hist h in
+  mem i (q_dead s) = false -> q_reg s = Some g ->
+  (has_rel (q_subs s) i k = false ->
+   q_out (seq_op s (i, OSub k)) =
+   q_out s ++ (if g_notify g && Nat.eqb (length (q_subs s)) 0 && negb (mem (g_owner g) (q_dead s)) then [(g_owner g, IStart)] else [])) /\
+  (has_rel (q_subs s) i k = true ->
+   q_out (seq_op s (i, OUnsub k)) =
+   q_out s ++ (if g_notify g && Nat.eqb (length (q_subs s)) 1 && negb (mem (g_owner g) (q_dead s)) then [(g_owner g, IStop)] else [])).
+Proof. intros s Hd Hg. split; intros Hr; [apply start_notify | apply stop_notify]; assumption. Qed.
+
 (* ------------------------------------------------------------------------------------------ *)
 (* 7. What does NOT hold under concurrency (witness schedules), and non-vacuity                 *)
 
@@ -739,48 +750,22 @@ Qed.
 Definition stale_progs : list (list op) :=
   [[ORegister 0 true; OUnregister]; [OSub KLink; OUnsub KLink]; [ORegister 0 true]].
 Definition stale_sched : list nat := [0; 1; 1; 0; 0; 0; 0; 2; 1; 1; 1; 1; 1; 1; 1; 1; 1].
-Definition stale_b : bool :=
-  let c := run stale_sched (init_cfg stale_progs) in
-  quiescent c &&
-  match inbox is_sys 2 (log (sh c)), inbox is_sys 0 (log (sh c)) with
-  | [IStop], [IStart] => true
-  | _, _ => false
-  end.
-
 Theorem start_stop_concurrent_refuted :
   exists progs sched, let c := run sched (init_cfg progs) in
     quiescent c = true /\ inbox is_sys 2 (log (sh c)) = [IStop] /\ inbox is_sys 0 (log (sh c)) = [IStart].
-Proof.
-  exists stale_progs, stale_sched.
-  assert (H : stale_b = true) by (vm_compute; reflexivity).
-  unfold stale_b in H. cbv zeta in *. apply andb_true_iff in H as [H1 H2].
-  split; [exact H1|].
-  destruct (inbox is_sys 2 _) as [|[] [|]]; try discriminate.
-  destruct (inbox is_sys 0 _) as [|[] [|]]; try discriminate. auto.
-Qed.
+Proof. exists stale_progs, stale_sched. cbv zeta. repeat split; vm_compute; reflexivity. Qed.
 
 (* the counter update and the push of the notification are two steps: a "stop" computed before a
    "start" can be pushed after it, so the producer's last information is "no subscriber" while one exists *)
 Definition reorder_progs : list (list op) :=
   [[ORegister 0 true]; [OSub KLink; OUnsub KLink]; [OSub KMon]].
 Definition reorder_sched : list nat := [0; 1; 1; 1; 1; 1; 1; 1; 1; 1; 1; 2; 2; 2; 2; 2; 2; 1; 1].
-Definition reorder_b : bool :=
-  let c := run reorder_sched (init_cfg reorder_progs) in
-  quiescent c && negb (Nat.eqb (length (rels (sh c))) 0) &&
-  match inbox is_sys 0 (log (sh c)) with
-  | [IStart; IStart; IStop] => true
-  | _ => false
-  end.
 Theorem start_stop_order_refuted :
   exists progs sched, let c := run sched (init_cfg progs) in
     quiescent c = true /\ rels (sh c) <> [] /\ inbox is_sys 0 (log (sh c)) = [IStart; IStart; IStop].
 Proof.
-  exists reorder_progs, reorder_sched.
-  assert (H : reorder_b = true) by (vm_compute; reflexivity).
-  unfold reorder_b in H. cbv zeta in *. apply andb_true_iff in H as [H1 H2]. apply andb_true_iff in H1 as [H0 H1].
-  split; [exact H0|]. split.
-  - intros E. rewrite E in H1. discriminate.
-  - destruct (inbox is_sys 0 _) as [|[] [|[] [|[] [|]]]]; try discriminate. reflexivity.
+  exists reorder_progs, reorder_sched. cbv zeta. repeat split; try (vm_compute; reflexivity).
+  vm_compute. discriminate.
 Qed.
 
 (* non-vacuity: two publishers, a link+monitor subscriber and a late subscriber, buffer 2, interleaved *)
@@ -788,7 +773,7 @@ Definition ex_progs : list (list op) :=
   [[ORegister 2 true; OPublish 1 10; OPublish 1 11; OUnregister];
    [OSub KLink; OSub KMon; OPublish 1 20];
    [OPublish 0 30; OSub KMon]].
-Definition ex_sched : list nat := [0; 1; 1; 1; 1; 1; 0; 0; 1; 1; 1; 1; 2; 2; 0; 0; 0; 2; 2; 2; 2; 2; 1; 1; 1; 1; 1; 0; 0; 0; 0; 0; 0; 0; 0; 0].
+Definition ex_sched : list nat := [0; 1; 1; 1; 1; 1; 1; 0; 0; 0; 0; 1; 1; 1; 1; 1; 2; 0; 0; 0; 0; 2; 2; 2; 2; 2; 1; 1; 1; 1; 1; 0; 0; 0; 0; 0; 0; 0].
 Example ex_nontrivial :
   let c := run ex_sched (init_cfg ex_progs) in
   quiescent c = true /\
